@@ -1,6 +1,7 @@
 package vstate
 
 import (
+	"sort"
 	"fmt"
 	"strings"
 	"math/rand/v2"
@@ -59,6 +60,15 @@ func newProbeSet(g *chain.Gen) *probeSet {
 	ps.slots = append(ps.slots, *chain.F(0), *chain.F(0x123456789))
 	ps.classes[*chain.F(0xdead)] = struct{}{}
 	return ps
+}
+
+func (ps *probeSet) sortedClasses() []felt.Felt {
+	out := make([]felt.Felt, 0, len(ps.classes))
+	for h := range ps.classes {
+		out = append(out, h)
+	}
+	sort.Slice(out, func(i, j int) bool { return out[i].Cmp(&out[j]) < 0 })
+	return out
 }
 
 type checker struct {
@@ -178,7 +188,7 @@ func (c *checker) checkView(view string, block, head uint64, sr core.StateReader
 			}
 		}
 	}
-	for h := range c.ps.classes {
+	for _, h := range c.ps.sortedClasses() { // fixed order: the k-th read of a query is the same read in every run
 		hh := h
 		ci, declared := st.Classes[hh]
 		dc, err := sr.Class(&hh)
